@@ -33,7 +33,6 @@ KEYS = {
     'aNRb1': ([('NR', 0)], 'aNR == b1'),
     'a.NRb.NR': ([('NR', 'NR')], 'a.NR == b.NR'),
     'a1bNR': ([(0, 'NR')], 'a1 == bNR'),
-    'b1NR': ([('NR', 0)], 'b1 == NR'),
     'a1b1+NR': ([(0, 0), ('NR', 'NR')], 'a1 == b1 and NR == bNR'),
     'NR+a1b1': ([('NR', 'NR'), (0, 0)], 'aNR == b.NR and b1 == a1'),
     'a1bNR+a2b1': ([(0, 'NR'), (1, 0)], 'a1 == bNR and a2 == b1'),
